@@ -1,7 +1,7 @@
 T = "GeomV.C13."
 CFG = {
     "id": "C13",
-    "lean_modules": ["GeomV.C13.Proofs", "GeomV.C13.Ties", "GeomV.C13.ProofsMeet", "GeomV.C13.ProofsRing", "GeomV.C13.ProofsTie"],
+    "lean_modules": ["GeomV.C13.Proofs", "GeomV.C13.Ties", "GeomV.C13.ProofsMeet", "GeomV.C13.ProofsRing", "GeomV.C13.ProofsTie", "GeomV.C13.ProofsBudget"],
     "exe": "geomv_c13",
     "go_cmd": "c13",
     "stages": ["go:gen", "go:impl", "lean:judge"],
@@ -16,6 +16,7 @@ CFG = {
         "C13_ring_closing_guard_vacuous", "C13_ring_simplicity_not_preserved",
         "C13_simple_collinear_ordered", "C13_genPos_imp_colOrdered",
         "C13_ring_open_chain_simple", "C13_polygon_open_chains_simple", "C13_neartie_band_sound",
+        "C13_budget_from_rounding", "C13_float_test_exact_outside_band",
     ]],
     "trusted_base": [
         "Lean 4.33.0 kernel; axioms of every theorem printed by #print axioms must be within {propext, Classical.choice, Quot.sound}",
